@@ -43,6 +43,11 @@ def scenarios(tier):
             else:
                 bound = 2 if quick else None
             jobs.append((scn, bound, 60 if quick else 900, 1, ai))
+            if ai == 0 or (not quick and ai < 3):
+                # transactions may overlap before their first write
+                jobs.append((common.variant(scn, '/overlap', rp=True),
+                             1 if quick else 2, 60 if quick else 900, 1,
+                             ai + 0.6))
             has_join = any(t.get('join') for t in prog['tasks'].values())
             if has_join and (ai < 2 or not quick):
                 # joins are refreshed through scheduler jobs: the same
@@ -91,6 +96,10 @@ def main(tier):
         'one engine, one executor, one scheduler instance (legacy; programs with joins also over the DefaultScheduler without its store poll); integrity '
         'check and heartbeats off (repair mechanisms would mask lost '
         'wake-ups)',
+        'the /overlap scenarios additionally let a transaction that has '
+        'only read so far be overtaken by complete transactions of other '
+        'activities before its first write or lock (READ COMMITTED '
+        'overlap); writes of one transaction stay atomic',
         'visited set stores 128-bit hashes of canonical states (collision '
         'probability negligible)',
     ]
